@@ -22,7 +22,12 @@ ASSUMPTIONS = ['pandas: ffill/bfill(limit), fillna(value, limit), boolean-mask s
                'Decreasing / shuffled / repeated-label indexes are generated for the methods that never look at labels (numbers, ffill, bfill, nona)',
                'float values are exact multiples of 1/4; dtype changes, axis=1, interpolation methods, pad, date methods, '
                'nona(value != nan) are not modelled; limit=0 (outside the quantifier) is not generated',
-               'input immutability: proved on the object store PygModel/FillAlias.lean under the assumption, observed by snapshot on every line, that pandas ffill / fillna / bfill / boolean selection / .loc / concat return new objects']
+               'input immutability: proved on the object store PygModel/FillAlias.lean under the assumption, observed by snapshot on every line, that pandas ffill / fillna / bfill / boolean selection / .loc / concat return new objects',
+               'input immutability seen from the RESULT (review t4 2.1): on every line and in the laws every cell of the result is overwritten and the argument compared with its snapshot '
+               '(a writable numpy view of the argument is a finding - C12-E2, repaired); `res is x` for an empty method list and read-only results are skipped. The store model covers `_df_fillna` only, not `_nona`',
+               'not modelled, not generated: 2-d inputs WITHOUT columns ((n, 0) arrays, `pd.DataFrame(index=idx)`) - probed: ffill_na / ffill_0 raise "ValueError: No objects to concatenate" '
+               '(pd.concat of zero columns), every other method answers; the wire cannot carry the row count of a frame without columns; `edge` values other than None / 1 / -1 '
+               '(outside the docstring; code and model: None / err Other, for arrays as for pandas objects since 002fba9), bool methods (is_num(True))']
 S = 4
 METHODS = ['ffill', 'bfill', 'backfill', 'ffill_na', 'ffill_0', 'fnna', 'nona', 'c:0', 'c:6', 'c:-3', 'c:4']
 VALS = [1.0, 2.0, 0.0, -1.5, 0.25, 3.0, 7.75, -4.0]
